@@ -235,9 +235,12 @@ class Prover:
             if d == start:
                 continue
             if d in fwd and (d == site or site in body.reachable(d, avoid={start})):
-                # a definition inside the site block itself happens after the assert's operands
                 if d == site:
-                    continue
+                    # the destination of the site's own call / assert is written after its operands
+                    # were read; a STATEMENT of the site block that assigns v runs before them
+                    stmts = self.body.blocks[d]["s"]
+                    if not any(st["k"] == "assign" and st["p"][0] == v for st in stmts):
+                        continue
                 return False
         return True
 
